@@ -35,7 +35,22 @@ thread_local! {
     static SEGMENT_MODE: std::cell::Cell<u8> = const { std::cell::Cell::new(0) };
 }
 
+/// Radial header fields the summary is not a function of (the property names type, elevation
+/// number, azimuth, times and data blocks only): (name, in-domain values). Field 0 is the radial
+/// status, whose default in every other phase is 1 (intermediate radial).
+pub const FREE_FIELDS: [(&str, &[u32]); 5] = [
+    ("radial_status", &[0, 1, 2, 3, 4, 5]),
+    ("spot_blanking", &[0, 1, 2, 4]),
+    ("azimuth_spacing", &[1, 2]),
+    ("azimuth_indexing", &[0, 1, 50, 100]),
+    ("cut_sector", &[0, 1, 2, 3]),
+];
+
 fn build_message(sym: usize, pos: usize) -> dm::Message {
+    build_message_with(sym, pos, None)
+}
+
+fn build_message_with(sym: usize, pos: usize, ov: Option<(u8, u32)>) -> dm::Message {
     let time = 1000 * (pos as u32 + 1);
     let mut mh = MsgHeader::simple(0, 19000, time);
     mh.seq = pos as u16;
@@ -69,6 +84,14 @@ fn build_message(sym: usize, pos: usize) -> dm::Message {
             let (mut h, blocks) = simple_radial(elev, pos as u16 + 1, 19000, time + 7, &kinds, 2, vcp);
             h.az_angle = (pos as f32 * 0.5 + 0.25).to_bits();
             h.elev_angle = (elev as f32 * 0.5 + pos as f32 * 0.001).to_bits();
+            match ov {
+                Some((0, v)) => h.status = v as u8,
+                Some((1, v)) => h.spot_blanking = v as u8,
+                Some((2, v)) => h.spacing = v as u8,
+                Some((3, v)) => h.az_indexing = v as u8,
+                Some((4, v)) => h.cut_sector = v as u8,
+                _ => {}
+            }
             t31_message(&mh, &h, &blocks, &Layout::default())
         }
     };
@@ -156,9 +179,14 @@ fn hdr_time(m: &dm::Message) -> Option<DateTime<Utc>> {
 
 /// Returns an outcome label after checking all invariants for `word`.
 pub fn check_word(ctx: &Ctx, cache: &Cache, word: &[u8]) -> &'static str {
-    let msgs = cache.list(word);
+    check_list(ctx, cache.list(word), word, &[])
+}
+
+/// `overrides` = (position, free field index, value) applied to the radial messages of `msgs`
+/// (already applied by the caller; recorded in the witness so that a replay rebuilds the list).
+pub fn check_list(ctx: &Ctx, msgs: Vec<dm::Message>, word: &[u8], overrides: &[(usize, u8, u32)]) -> &'static str {
     let seg_mode = SEGMENT_MODE.with(|m| m.get());
-    let wit = || json!({"op": "word", "word": word, "segment_mode": seg_mode});
+    let wit = || json!({"op": "word", "word": word, "segment_mode": seg_mode, "overrides": overrides.iter().map(|o| json!([o.0, o.1, o.2])).collect::<Vec<_>>()});
     let n = msgs.len();
     let m2 = msgs.clone();
     let sum = match guarded(move || summarize::messages(&m2)) {
@@ -438,8 +466,74 @@ pub fn run(ctx: &'static Ctx) -> (&'static str, Value, Vec<&'static str>) {
         stats.count("words_with_segmented_headers", 1);
     }
     SEGMENT_MODE.with(|m| m.set(0));
+    // free header fields: the summary is a function of message type, elevation number, azimuth,
+    // times and data blocks only. Every word over {R1, R2, S} up to length 5 (thorough 6), with
+    // the radial status of at most two radial positions deviating from "intermediate" to any of
+    // the six documented codes (all pairs of codes), and one position deviating in each of the
+    // other free fields; the reference grouper ignores all of them.
+    {
+        use rayon::prelude::*;
+        let fa: [u8; 3] = [0, 2, 3];
+        let maxlen = if ctx.tier.thorough() { 6 } else { 5 };
+        let mut var: std::collections::HashMap<(u8, usize, u8, u32), dm::Message> = std::collections::HashMap::new();
+        for sym in [0u8, 2] {
+            for pos in 0..maxlen {
+                for (fi, (_, vals)) in FREE_FIELDS.iter().enumerate() {
+                    for v in vals.iter() {
+                        var.insert((sym, pos, fi as u8, *v), build_message_with(sym as usize, pos, Some((fi as u8, *v))));
+                    }
+                }
+            }
+        }
+        let all_words: Vec<Vec<u8>> = (0..=maxlen).flat_map(|len| words(3, len).map(|w| w.iter().map(|x| fa[*x as usize]).collect::<Vec<u8>>()).collect::<Vec<_>>()).collect();
+        let fstats = all_words
+            .par_iter()
+            .map(|word| {
+                let mut st = Stats::new();
+                let base = cache.list(word);
+                let rpos: Vec<usize> = (0..word.len()).filter(|i| word[*i] != 3).collect();
+                let mut plans: Vec<Vec<(usize, u8, u32)>> = Vec::new();
+                for (a, &pa) in rpos.iter().enumerate() {
+                    for (fi, (_, vals)) in FREE_FIELDS.iter().enumerate() {
+                        for v in vals.iter() {
+                            if fi == 0 && *v == 1 {
+                                continue;
+                            }
+                            plans.push(vec![(pa, fi as u8, *v)]);
+                        }
+                    }
+                    for &pb in rpos.iter().skip(a + 1) {
+                        for va in [0u32, 2, 3, 4, 5] {
+                            for vb in [0u32, 2, 3, 4, 5] {
+                                plans.push(vec![(pa, 0, va), (pb, 0, vb)]);
+                            }
+                        }
+                    }
+                }
+                for plan in plans {
+                    let mut msgs = base.clone();
+                    for (p, f, v) in plan.iter() {
+                        if let Some(m) = var.get(&(word[*p], *p, *f, *v)) {
+                            msgs[*p] = m.clone();
+                        }
+                    }
+                    let o = check_list(ctx, msgs, word, &plan);
+                    st.eval();
+                    st.outcome(o);
+                    st.count("lists_with_free_header_fields_varied", 1);
+                    st.dim("free_field", FREE_FIELDS[plan[0].1 as usize].0);
+                    if plan.len() == 2 {
+                        st.dim("status_pair", format!("{}{}", plan[0].2, plan[1].2));
+                        st.nontrivial(format!("ff{:?}{:?}", word, plan).as_bytes());
+                    }
+                }
+                st
+            })
+            .reduce(Stats::new, Stats::merge);
+        stats = stats.merge(fstats);
+    }
     let mut cov = stats.coverage(
-        "stateright BFS over message words: alphabet {R1 (elev 1, REF), R1v (elev 1, REF+VEL, VOL 212), R2 (elev 2, all moments, VOL 35), S, V, O3, O18} to depth 6 (thorough 7), {R1,R2} to depth 12 (14), {R1,R2,R3n,S[,R1v]} to depth 7 (8); each symbol is a real decoded Message stamped with its position; invariant runs the real summarize::messages in every state and checks tiling, count=span, maximal-run rule, continuation flags, data-type counts, first/last azimuth and time, collection-time range, VCP set, and a split differential from non-initial states; plus 200 lists in which an elevation is resumed after k = 1..=100 intervening groups. non-trivial = >=2 reference groups",
+        "stateright BFS over message words: alphabet {R1 (elev 1, REF), R1v (elev 1, REF+VEL, VOL 212), R2 (elev 2, all moments, VOL 35), S, V, O3, O18} to depth 6 (thorough 7), {R1,R2} to depth 12 (14), {R1,R2,R3n,S[,R1v]} to depth 7 (8); each symbol is a real decoded Message stamped with its position; invariant runs the real summarize::messages in every state and checks tiling, count=span, maximal-run rule, continuation flags, data-type counts, first/last azimuth and time, collection-time range, VCP set, and a split differential from non-initial states; plus 200 lists in which an elevation is resumed after k = 1..=100 intervening groups; plus every word over {R1,R2,S} to length 5 (6) with the radial status of <= 2 radial positions set to each (pair) of the six documented codes and one position deviating in spot blanking / azimuth spacing / indexing / cut sector, against the same reference (the summary is not a function of those fields). non-trivial = >=2 reference groups",
         true,
         json!({"models": reports}),
     );
@@ -461,7 +555,14 @@ pub fn replay(ctx: &'static Ctx, case: &Value) {
     let w: Vec<u8> = case["word"].as_array().map(|a| a.iter().map(|x| x.as_u64().unwrap_or(0) as u8).collect()).unwrap_or_default();
     SEGMENT_MODE.with(|m| m.set(case["segment_mode"].as_u64().unwrap_or(0) as u8));
     let cache = Cache::new();
-    let o = check_word(ctx, &cache, &w);
+    let ov: Vec<(usize, u8, u32)> = case["overrides"].as_array().map(|a| a.iter().map(|o| (o[0].as_u64().unwrap_or(0) as usize, o[1].as_u64().unwrap_or(0) as u8, o[2].as_u64().unwrap_or(0) as u32)).collect()).unwrap_or_default();
+    let mut msgs = cache.list(&w);
+    for (p, f, v) in ov.iter() {
+        if *p < msgs.len() {
+            msgs[*p] = build_message_with(w[*p] as usize, *p, Some((*f, *v)));
+        }
+    }
+    let o = check_list(ctx, msgs, &w, &ov);
     SEGMENT_MODE.with(|m| m.set(0));
     println!("replay C14 {:?} -> {o}", w.iter().map(|x| SYMS[*x as usize]).collect::<Vec<_>>());
 }
